@@ -224,13 +224,16 @@ class DelimSource(Source[Iterable[str]]):
 
         if split_lines:
             for text in filter(None,self._source.read()):
-                lines = text.splitlines()
-                if pending:
-                    lines[0] = pending + lines[0]
-                    pending = None
-                if text[-1] not in '\r\n':
-                    pending = lines.pop()
-                yield from lines
+                if pending: text = pending + text
+                lines = text.splitlines(True)
+                #the last line is held back if it has no line ending yet or ends
+                #with a \r since its \n might be the start of the next chunk of text
+                last = lines[-1]
+                pending = lines.pop() if last[-1] == '\r' or last.splitlines()[0] == last else None
+                for line in lines: yield line.splitlines()[0]
+            if pending is not None:
+                yield from pending.splitlines()
+            return
         else:
             for text in filter(None,self._source.read()):
                 lines = text.split(delim)
